@@ -7,14 +7,19 @@
 //! does) over
 //!  * `top`:    3 top-level field names, each absent / required T / Option(T)
 //!              / Option(T') per version (64 configurations per version);
-//!  * `nested`: one required field holding a nested struct (keyed Map) whose
-//!              two keys are each absent / required T / Option(T) / Option(T')
-//!              per version (15 configurations per version).
+//!  * `nested`: one field holding a nested struct (keyed Map) whose two keys
+//!              are each absent / required T / Option(T) / Option(T') per
+//!              version (15 configurations per version), with the struct
+//!              sitting directly in the field, in Option, in Array([T]), as
+//!              the value of a Text / I64 wildcard map, map-in-map, array in
+//!              a wildcard-map value, Option in an array (8 placements).
 //! Whether an upgrade is permitted is the code's own answer; for every
 //! permitted one, every document written (as stored bytes) under every earlier
 //! version of the chain — and its rewritten form after each intermediate
 //! read — must read back under the new schema with every surviving field /
-//! key equal to what was written.
+//! key equal to what was written; read both with the schema object
+//! `upgrade_with` produced (what a live collection keeps using) and with that
+//! schema reloaded from its persisted CBOR form (what a reopened one loads).
 
 use anda_db_schema::{Document, FieldEntry, FieldType, Schema};
 use serde_json::json;
@@ -456,7 +461,14 @@ fn step(
             let forms: Vec<(&str, Vec<u8>)> = std::iter::once(("as first written", d.orig.clone()))
                 .chain(d.rewritten.clone().map(|b| ("as rewritten after the previous upgrade", b)))
                 .collect();
-            for (form, via, bytes) in forms.iter().flat_map(|(f, b)| [(*f, "the schema object upgrade_with produced", b), (*f, "that schema reloaded from its persisted form", b)]) {
+            // every stored form is read with the live schema object; the first-written
+            // bytes also with the schema as a reopened collection would load it
+            let reads: Vec<(&str, &str, &Vec<u8>)> = forms
+                .iter()
+                .map(|(f, b)| (*f, "the schema object upgrade_with produced", b))
+                .chain(forms.first().map(|(f, b)| (*f, "that schema reloaded from its persisted form", b)))
+                .collect();
+            for (form, via, bytes) in reads {
                 st.reads += 1;
                 let reader = if via.starts_with("the schema object") { &new } else { &reloaded };
                 let outcome = catch_unwind(AssertUnwindSafe(|| -> Result<Vec<u8>, (String, String)> {
@@ -649,7 +661,7 @@ fn main() {
         run.violation(f.v);
     }
     run.rule(
-        "all chains of <= 3 (thorough: 4) upgrades over (top) 3 field names x {absent, required T, Option(T), Option(T')} = 64 configurations per version and (nested) one nested struct with 2 keys x the same 4 states = 15 configurations per version; every successor configuration is offered to Schema::upgrade_with against the CBOR-persisted predecessor; for each permitted upgrade every document written under every earlier version (all combinations of absent / Null / value per optional slot), both as first stored and as rewritten after the previous upgrade, is read under the new schema; a slot survives while it stays declared without interruption; distinct = permitted chains; evaluations = document read-backs",
+        "all chains of <= 3 (thorough: 4) upgrades over (top) 3 field names x {absent, required T, Option(T), Option(T')} = 64 configurations per version and (nested) one nested struct with 2 keys x the same 4 states = 15 configurations per version, the struct placed directly / in Option / in Array([T]) / as Text- and I64-wildcard-map value / map-in-map / array-in-wildcard-map / Option-in-array (8 placements); every successor configuration is offered to Schema::upgrade_with against the CBOR-persisted predecessor; for each permitted upgrade every document written under every earlier version (all combinations of absent / Null / value per optional slot), both as first stored and as rewritten after the previous upgrade, is read under the new schema — with the in-memory schema object upgrade_with produced and (first-stored bytes) with that schema reloaded from CBOR; optional slots carry absent, Null and non-null values; a slot survives while it stays declared without interruption; distinct = permitted chains; evaluations = document read-backs",
     );
     run.assume("slot types: x I64/Text, y Vector/F32, z Map{*:I64}/Bytes; nested keys a I64/Text, b F32/U64; which upgrades are permitted is taken from upgrade_with itself (non-permitted upgrades are not part of the property)");
     run.finish();
